@@ -17,6 +17,8 @@ Record GInv (c : gcfg) : Prop := {
                     | PErr2 | PComp2 => g_n c = false
                     | PErr3 | PComp3 => g_n c = false /\ g_c c = false
                     | PInCb e => gterm e = true -> g_n c = false /\ g_c c = false /\ g_e c = false
+                    | PUnsub1 => g_n c = false
+                    | PUnsub2 => g_n c = false /\ g_e c = false
                     | _ => True
                     end;
   gi_ret : g_termret c = true -> g_n c = false /\ g_e c = false /\ g_c c = false;
@@ -47,12 +49,16 @@ Lemma pc_frame (p : gpc) (n e cc n' e' c' : bool) :
   | PErr2 | PComp2 => n = false
   | PErr3 | PComp3 => n = false /\ cc = false
   | PInCb ev => gterm ev = true -> n = false /\ cc = false /\ e = false
+  | PUnsub1 => n = false
+  | PUnsub2 => n = false /\ e = false
   | _ => True
   end ->
   match p with
   | PErr2 | PComp2 => n' = false
   | PErr3 | PComp3 => n' = false /\ c' = false
   | PInCb ev => gterm ev = true -> n' = false /\ c' = false /\ e' = false
+  | PUnsub1 => n' = false
+  | PUnsub2 => n' = false /\ e' = false
   | _ => True
   end.
 Proof.
@@ -63,6 +69,8 @@ Proof.
   - intros [H1 H2]. split; [destruct n'; auto; now rewrite Hn in H1 | destruct c'; auto; now rewrite Hc in H2].
   - intros H T. destruct (H T) as (H1 & H2 & H3).
     repeat split; [destruct n'; auto; now rewrite Hn in H1 | destruct c'; auto; now rewrite Hc in H2 | destruct e'; auto; now rewrite He in H3].
+  - intro H. destruct n'; auto. now rewrite Hn in H.
+  - intros [H1 H2]. split; [destruct n'; auto; now rewrite Hn in H1 | destruct e'; auto; now rewrite He in H2].
 Qed.
 
 Lemma forallb_app_true {A} (f : A -> bool) l1 l2 : forallb f l1 = true -> forallb f l2 = true -> forallb f (l1 ++ l2) = true.
@@ -263,7 +271,7 @@ Proof.
     + intro i. thr i t; cbn; [discriminate |]. intro X. destruct (Hd i X). auto.
     + discriminate.
     + exact Le.
-    + intro i. thr i t; cbn; auto. eapply pc_frame; [| | | apply Pc]; auto; try discriminate.
+    + intro i. thr i t; cbn; [split; [exact Pct | reflexivity] |]. eapply pc_frame; [| | | apply Pc]; auto; try discriminate.
     + intro X. destruct (Rt X) as (X1 & _ & X3). auto.
     + intro i. thr i t; cbn; auto; apply Lt.
     + exact Nl.
@@ -274,7 +282,7 @@ Proof.
     + intro X. destruct (Ee X) as [A B]. split; auto. intro i. thr i t; cbn; auto.
     + exact Le.
     + intro i. thr i t; cbn; auto. eapply pc_frame; [| | | apply Pc]; auto; try discriminate.
-    + intro X. destruct (Rt X) as (X1 & X2 & _). auto.
+    + intros _. destruct Pct as [X1 X2]. auto.
     + intro i. thr i t; cbn; auto; apply Lt.
     + exact Nl.
 Qed.
